@@ -22,6 +22,10 @@ pub struct StormCfg {
     pub program_fees: bool,
     pub magnitude: u8, // 0 dust, 1 normal, 2 u64-scale
     pub with_staked: bool,
+    /// number of isolated-tier banks (the last ones)
+    pub n_isolated: usize,
+    /// configure e-mode tags / entries on the banks
+    pub emode: bool,
 }
 
 pub fn pick<T: Copy>(r: &mut R, xs: &[T]) -> T {
@@ -122,7 +126,7 @@ impl Storm {
                 _ => TokKind::T22,
             };
             let m = w.add_mint(decimals, kind).await;
-            let isolated = i == cfg.n_banks - 1 && cfg.n_banks > 2;
+            let isolated = i + cfg.n_isolated >= cfg.n_banks && cfg.n_banks > cfg.n_isolated + 1;
             let mut c = rand_bank_cfg(&mut r, isolated);
             if i == 1 {
                 c.asset_tag = 1; // SOL tag
@@ -152,6 +156,9 @@ impl Storm {
             };
             bi.expect("bank creation");
             w.create_ata(w.fee_wallet.pubkey(), m).await;
+        }
+        if cfg.emode {
+            configure_emode(&mut w, &mut r, g).await;
         }
         for _ in 0..cfg.n_users {
             let u = w.add_user(fund).await;
@@ -349,4 +356,33 @@ impl Storm {
 
 pub fn i80(x: f64) -> I80F48 {
     I80F48::from_num(x)
+}
+
+/// E-mode set-up: collateral banks get tags; a random subset of banks gets entries that grant
+/// tagged collateral a higher weight (within what the program's validation accepts).
+pub async fn configure_emode(w: &mut World, r: &mut R, g: usize) {
+    let gk = w.groups[g].key;
+    let ea = clone_kp(&w.groups[g].emode);
+    let nb = w.banks.len();
+    let z: WrappedI80F48 = wi(0.0);
+    for b in 0..nb {
+        let bank = w.bank(b);
+        let tag = pick(r, &[0u16, 1, 2, 3, 1]);
+        let mut entries = [EmodeEntry { collateral_bank_emode_tag: 0, flags: 0, pad0: [0; 5], asset_weight_init: z, asset_weight_maint: z }; MAX_EMODE_ENTRIES];
+        if r.gen_bool(0.65) {
+            let li = to_f64(&fx(&bank.config.liability_weight_init.value));
+            let lm = to_f64(&fx(&bank.config.liability_weight_maint.value));
+            let mut k = 0;
+            for t in [1u16, 2, 3] {
+                if r.gen_bool(0.6) {
+                    let ci = (li * pick(r, &[0.7f64, 0.85, 0.92])).min(lm * 0.94);
+                    let cm = (ci + pick(r, &[0.0f64, 0.01, 0.03])).min(lm * 0.945);
+                    entries[k] = EmodeEntry { collateral_bank_emode_tag: t, flags: 0, pad0: [0; 5], asset_weight_init: wi(ci), asset_weight_maint: wi(cm.max(ci)) };
+                    k += 1;
+                }
+            }
+        }
+        let i = ix::configure_bank_emode(gk, ea.pubkey(), w.banks[b].key, tag, entries);
+        let _ = w.raw_send(&[i], &[&ea]).await;
+    }
 }
